@@ -86,6 +86,11 @@ CLAIMS = {
             "before being written, cleanup reaches every untouched or tearing-down owned output, finalizer release does not depend on an "
             "output being destroyed in the same cycle, runtime errors are never dropped, conflict-skips are scoped to the primary output, and "
             "a failed cycle is returned as an error so that the runtime retries it.", "§3 C06"),
+    "C09": ("confinement (who-may-access) + per-select-arm path-cuts + guard normal forms on the queue containers (necessary structure only)",
+            "Interleavings and time are NOT decided. Decides that the queue's state is confined to one goroutine, and arm by arm the "
+            "discipline the property's sentences rest on: hand-out (ready key only; on-hold, pop, length), put (park vs push), release "
+            "(un-hold, requeue without overwrite, re-push parked value), one hand-back per item, backoff table, length pairing, readiness "
+            "guard and Push's update/early-return order.", "§3 C09"),
     "C07": ("path-cut (must-precede) analysis on go/ssa control-flow graphs",
             "Decides, for every path of every generic controller's reconcile code, the write-order clauses of the property "
             "(finalizer before output, destroy only when ready/empty, finalizer released only after destroy/handler success) "
